@@ -4,7 +4,7 @@ patch="$1"; shift
 cd /repo || exit 3
 if ! git diff --quiet; then echo "/repo is dirty"; exit 3; fi
 if ! git apply --check "$patch" 2>/dev/null; then
-  if ! git apply --3way "$patch" 2>/dev/null; then echo "PATCH DOES NOT APPLY: $patch"; git checkout -- . ; exit 4; fi
+  if ! git apply --3way "$patch" 2>/dev/null; then echo "PATCH DOES NOT APPLY: $patch"; git reset -q --hard HEAD; exit 4; fi
   git reset -q
 else
   git apply "$patch"
@@ -15,5 +15,5 @@ for c in "$@"; do
   echo "$out" | grep -E "^VIOLATION|^  obligation|CHECKER|UNDECIDED" | head -${SHOW:-4} | cut -c1-400
   echo "$out" | tail -1
 done
-git -C /repo checkout -- .
+git -C /repo reset -q --hard HEAD
 git -C /verif checkout -- evidence 2>/dev/null
